@@ -31,6 +31,14 @@ type e2ePlan struct {
 	Stop    *e2eStop   `json:"stop,omitempty"`
 	Pause   *e2ePause  `json:"pause,omitempty"`
 	Silence *e2eSil    `json:"silence,omitempty"`
+	// WriteErr: the connection of direction Dir returns a write error after its message K
+	WriteErr *e2eSil `json:"writeerr,omitempty"`
+	// DstErr: destination writes fail (the first destination file is a symlink to /dev/full; needs overwrite)
+	DstErr bool `json:"dsterr,omitempty"`
+	// Shrink: the first source file is truncated to half once message G (global index) was written
+	Shrink *e2eSil `json:"shrink,omitempty"`
+	// CheckLeft: after both roles returned wait timeout+1s and count transfer goroutines still alive
+	CheckLeft bool `json:"checkleft,omitempty"`
 }
 
 type e2eStop struct {
@@ -89,6 +97,12 @@ func e2eExec(c *e2eCase, work string, tr *vTrace, logLines bool) (*e2eResult, ma
 		}
 	}
 	pre := e2eSnapshot(dst)
+	e2eSrcCache = map[string]map[string]e2eEntry{}
+	for _, t := range tops {
+		if s := e2eSourceSnapshot(t); s != nil {
+			e2eSrcCache[t] = s
+		}
+	}
 	o := c.Opts
 	o.Src, o.Dst = tops, dst
 	if o.Bufsize == 0 {
@@ -109,6 +123,21 @@ func e2eExec(c *e2eCase, work string, tr *vTrace, logLines bool) (*e2eResult, ma
 	}
 	if c.Plan.Silence != nil {
 		w.silenceDir, w.silenceK = c.Plan.Silence.Dir, c.Plan.Silence.K
+		if c.Plan.Silence.K < 0 {
+			if c.Plan.Silence.Dir == "c2s" {
+				w.c2s.silent = true
+			} else {
+				w.s2c.silent = true
+			}
+		}
+	}
+	if c.Plan.DstErr && len(tops) > 0 {
+		_ = os.Symlink("/dev/full", filepath.Join(dst, filepath.Base(tops[0])))
+		pre = e2eSnapshot(dst)
+	}
+	baseline := 0
+	if c.Plan.CheckLeft {
+		baseline, _ = e2eLeftGoroutines()
 	}
 	proto := o.Protocol
 	if o.OldServer {
@@ -122,7 +151,8 @@ func e2eExec(c *e2eCase, work string, tr *vTrace, logLines bool) (*e2eResult, ma
 	reset := map[string]any{"e": "reset", "run": c.ID, "upload": o.Upload, "proto": proto, "binary": o.Binary,
 		"overwrite": o.Overwrite, "directory": o.Directory, "windows": o.Windows,
 		"nfaults": len(c.Plan.Faults), "stop": "none", "stopdel": false, "pause": c.Plan.Pause != nil,
-		"silence": c.Plan.Silence != nil, "timeout": o.Timeout}
+		"silence": c.Plan.Silence != nil || c.Plan.WriteErr != nil || c.Plan.DstErr || c.Plan.Shrink != nil, "timeout": o.Timeout,
+		"fkind": e2ePlanKind(&c.Plan), "prehs": e2ePreHandshake(&c.Plan)}
 	{
 		fl := []map[string]any{}
 		for _, of := range e2eOracleFiles(tops, o, proto) {
@@ -141,10 +171,38 @@ func e2eExec(c *e2eCase, work string, tr *vTrace, logLines bool) (*e2eResult, ma
 	}
 	hooks.ready = func(w *e2eWire, client func() *trzszTransfer, server *trzszTransfer, f *TrzszFilter) {
 		st, pa := c.Plan.Stop, c.Plan.Pause
-		if st == nil && pa == nil {
+		sil, we, shr := c.Plan.Silence, c.Plan.WriteErr, c.Plan.Shrink
+		if st == nil && pa == nil && sil == nil && we == nil && shr == nil {
 			return
 		}
+		if c.Plan.DstErr {
+			stopAt = time.Now()
+		}
 		w.onMsg = func(m *e2eMsg, phase string) {
+			if sil != nil && phase == "after" && m.Dir == sil.Dir && m.K == sil.K && stopAt.IsZero() {
+				stopAt = time.Now()
+			}
+			if we != nil && phase == "after" && m.Dir == we.Dir && m.K == we.K && stopAt.IsZero() {
+				stopAt = time.Now()
+				p := w.c2s
+				if we.Dir == "s2c" {
+					p = w.s2c
+				}
+				w.mu.Lock()
+				p.writeErr = e2eErr("connection reset by verif harness")
+				w.mu.Unlock()
+			}
+			if shr != nil && phase == "after" && m.G == shr.K && stopAt.IsZero() {
+				stopAt = time.Now()
+				for _, tp := range tops {
+					_ = filepath.Walk(tp, func(pth string, info os.FileInfo, err error) error {
+						if err == nil && !info.IsDir() && info.Size() > 1 {
+							_ = os.Truncate(pth, info.Size()/2)
+						}
+						return nil
+					})
+				}
+			}
 			if st != nil && m.G == st.G && phase == st.Phase && stopAt.IsZero() {
 				stopAt = time.Now()
 				tr.Emit(map[string]any{"e": "stop", "run": c.ID, "g": m.G, "phase": phase, "role": st.Role, "del": st.Delete}, func() {
@@ -172,6 +230,27 @@ func e2eExec(c *e2eCase, work string, tr *vTrace, logLines bool) (*e2eResult, ma
 		e2eProbeSink(w)
 	}
 
+	left := 0
+	var leftFrames []string
+	if c.Plan.CheckLeft {
+		grace := time.Duration(o.Timeout)*time.Second + time.Second
+		deadline := time.Now().Add(grace)
+		for {
+			var n int
+			n, leftFrames = e2eLeftGoroutines()
+			left = n - baseline
+			if left <= 0 || time.Now().After(deadline) {
+				break
+			}
+			time.Sleep(100 * time.Millisecond)
+		}
+		if left < 0 {
+			left = 0
+		}
+	}
+	if c.Plan.DstErr && stopAt.IsZero() {
+		stopAt = time.Now()
+	}
 	// observable projection
 	names := res.Shown
 	if c.NamesFromTops {
@@ -283,7 +362,10 @@ func e2eExec(c *e2eCase, work string, tr *vTrace, logLines bool) (*e2eResult, ma
 		"extra": len(extra), "touched": len(touched), "shown": res.ShownOK, "nshown": len(names), "ntops": len(tops),
 		"npresent": npresent, "keptok": keptok, "verified": verified}
 	tr.Emit(fs, nil)
-	detail := map[string]any{"entries": entries, "extra": extra, "touched": touched, "shown": names,
+	if c.Plan.CheckLeft {
+		tr.Emit(map[string]any{"e": "left", "run": c.ID, "n": left}, nil)
+	}
+	detail := map[string]any{"left_frames": leftFrames, "entries": entries, "extra": extra, "touched": touched, "shown": names,
 		"client_err": res.ClientErr, "server_err": res.ServerErr, "hung": res.Hung}
 	return res, detail, nil
 }
@@ -386,3 +468,92 @@ func e2eProbe(c *e2eCase, work string, tr *vTrace) ([]*e2eMsg, error) {
 }
 
 var e2eProbeSink func(w *e2eWire)
+
+func e2ePlanKind(p *e2ePlan) string {
+	switch {
+	case p.Silence != nil:
+		return "silence-" + p.Silence.Dir
+	case p.WriteErr != nil:
+		return "writeerr-" + p.WriteErr.Dir
+	case p.DstErr:
+		return "dsterr"
+	case p.Shrink != nil:
+		return "shrink"
+	case p.Stop != nil:
+		return "stop"
+	case p.Pause != nil:
+		return "pause"
+	case len(p.Faults) > 0:
+		return "bytes"
+	}
+	return "none"
+}
+
+// e2ePreHandshake: the fault hits before the client has received the configuration (it still
+// runs on its default 20 s time-out then)
+func e2ePreHandshake(p *e2ePlan) bool {
+	if p.Silence != nil && p.Silence.Dir == "s2c" && p.Silence.K < 0 {
+		return true
+	}
+	if p.WriteErr != nil && p.WriteErr.Dir == "s2c" && p.WriteErr.K < 0 {
+		return true
+	}
+	return false
+}
+
+type e2eLayoutMsg struct {
+	Dir string `json:"dir"`
+	K   int    `json:"k"`
+	G   int    `json:"g"`
+	Typ string `json:"t"`
+	Off int    `json:"off"`
+	Len int    `json:"len"`
+}
+
+// e2eLayouts gives every shard the same message layout of the base cases: the parent process
+// probes each base once (clean run, retried on a loaded machine) and writes layout.json; the
+// children read it.
+func e2eLayouts(d *vCtx, bases []*e2eCase) ([][]e2eLayoutMsg, error) {
+	if os.Getenv("VERIF_SHARD") != "" {
+		b, err := os.ReadFile(filepath.Join(filepath.Dir(d.out), "layout.json"))
+		if err != nil {
+			return nil, err
+		}
+		var res [][]e2eLayoutMsg
+		return res, json.Unmarshal(b, &res)
+	}
+	base := e2eShmBase()
+	defer os.RemoveAll(base)
+	if e2eStdoutFile == nil {
+		if err := e2eCaptureStdout(d.out); err != nil {
+			return nil, err
+		}
+	}
+	ptr, err := vNewTrace(d.path("probe.ndjson"))
+	if err != nil {
+		return nil, err
+	}
+	defer ptr.Close()
+	var res [][]e2eLayoutMsg
+	for bi, c := range bases {
+		cc := *c
+		cc.ID = 800000 + bi
+		var w []*e2eMsg
+		var err error
+		for try := 0; try < 5; try++ {
+			if w, err = e2eProbe(&cc, e2eWorkDir(base, cc.ID), ptr); err == nil {
+				break
+			}
+		}
+		if err != nil {
+			return nil, err
+		}
+		var l []e2eLayoutMsg
+		for _, m := range w {
+			l = append(l, e2eLayoutMsg{m.Dir, m.K, m.G, m.Typ, m.Off, m.Len})
+		}
+		res = append(res, l)
+	}
+	b, _ := json.Marshal(res)
+	return res, os.WriteFile(d.path("layout.json"), b, 0644)
+}
